@@ -655,6 +655,98 @@ theorem save_nested_segment (o : Obj) (os : OStream) (r : SaveRes) (hdr : Bytes)
     rw [hoff, hva]
     exact congr_of_equidistant sf.offset sf.addr e.offset e.vaddr _ _ hA hm eqf hc
 
+/-- **What `validate` needs, nested PT_LOAD segments included.**  As `save_layoutOk`, but a PT_LOAD
+    segment with file size > 0 may also be a *nested* one (`selN`, `segNestedStartB`: it starts at
+    its already generated first member `sf`), provided `sf` occupies file space and carries the
+    segment's address (`n.vaddr = sf.addr` — "a nested segment starts at a member's address"):
+    the section containing the segment's first file byte is then `sf` itself (disjointness). -/
+theorem save_layoutOk_nested (o : Obj) (os : OStream) (r : SaveRes) (hdr : Bytes)
+    (hs : save o os = .ok r) (hok : r.ok = true) (hh : o.hdr = some hdr)
+    (hn : o.secs.length < 65536)
+    (h0 : ∀ (i : Nat) (s : SecBuf), o.secs[i]? = some s → s.Occ → s.index ≠ 0)
+    (hnull0 : ∀ s ∈ o.secs, s.stype = BitVec.ofNat 32 SHT_NULL → s.size = 0)
+    (hnw : layoutNW (preSave o) hdr = true) (hnd : (o.segs.map (·.index)).Nodup)
+    (sel selN : Nat → Bool) (hdom : layoutDomB false false sel (preSave o) hdr = true)
+    (hnest : layoutSelB segNestedStartB selN (preSave o) hdr = true)
+    (hsel : ∀ g ∈ r.obj.segs, g.stype = BitVec.ofNat 32 PT_LOAD → 0 < g.filesz.toNat →
+      sel g.index = true ∨
+      (selN g.index = true ∧ ∀ f sf, g.secs.head? = some f → r.obj.secs[f.toNat]? = some sf →
+        sf.Occ ∧ g.vaddr = sf.addr)) :
+    LayoutOk r.obj := by
+  obtain ⟨hin, hdisj, hlt, -⟩ := layout_disjoint o os r hdr hs hok hh hn h0 hnw
+  have hn' : (preSave o).secs.length < 65536 := by rw [preSave_length]; exact hn
+  have h0' := preSave_h0 o h0
+  have hnull : ∀ s ∈ r.obj.secs, s.stype = BitVec.ofNat 32 SHT_NULL → s.size = 0 := by
+    intro s hm he
+    obtain ⟨res, hl, -, -, hmap⟩ := save_secs_hdr o os r hdr hs hok hh
+    obtain ⟨k, hk⟩ := List.getElem?_of_mem hm
+    obtain ⟨s', hs', hhs⟩ := hdrOf_getElem? hmap k s hk
+    obtain ⟨s0, hs0, hm0⟩ := final_orig (preSave o) hdr res hl hnw hn' h0' k s' hs'
+    obtain ⟨t0, ht0, hht⟩ := hdrOf_getElem? (preSave_hdr o) k s0 hs0
+    simp only [hdrOf, Prod.mk.injEq] at hhs hht
+    rw [← hhs.2.1, hm0.size, ← hht.2.1]
+    apply hnull0 t0 (List.mem_of_getElem? ht0)
+    rw [hht.2.2.1, ← hm0.stype, hhs.2.2.1]; exact he
+  have hocc : ∀ s ∈ r.obj.secs, s.stype ≠ BitVec.ofNat 32 SHT_NOBITS → 0 < s.size.toNat → s.Occ := by
+    intro s hm h1 h2
+    refine ⟨h1, fun e => ?_, fun e => ?_⟩
+    · rw [hnull s hm e] at h2; exact absurd h2 (by decide)
+    · rw [e] at h2; exact absurd h2 (by decide)
+  have hsh := r.obj.curPos.isLt
+  refine ⟨?_, ?_, ?_⟩
+  · intro s hm h1 h2
+    obtain ⟨k, hk⟩ := List.getElem?_of_mem hm
+    have := (hin k s hk (hocc s hm h1 h2)).2
+    unfold SecBuf.endN at this; omega
+  · intro i j a b hij hi hj hta htb hsa hsb _ _
+    have ha := hocc a (List.mem_of_getElem? hi) hta hsa
+    have hb := hocc b (List.mem_of_getElem? hj) htb hsb
+    have := hdisj i j a b (by omega) hi hj ha hb
+    unfold RangesIntersect SecBuf.endN at *
+    omega
+  · intro g hg hload hfs s hm hpb h1 h2
+    obtain ⟨res, hl, hsegs, -, he⟩ := save_secs_hdr o os r hdr hs hok hh
+    obtain ⟨k, hk⟩ := List.getElem?_of_mem hm
+    have hso : s.Occ := hocc s hm (by rw [hpb]; decide) (by omega)
+    rcases hsel g hg hload hfs with hsg | ⟨hsg, hfirst⟩
+    · rw [hsegs] at hg
+      obtain ⟨-, -, -, f4⟩ := final_segments false false (preSave o) hdr res hl hnw hn' h0' hnd sel hdom g hg hsg
+      obtain ⟨s', hs', hhs⟩ := hdrOf_getElem? he k s hk
+      have hph : lseg_is_phdr g.stype (BitVec.ofNat 16 g.secs.length) = false := by
+        rw [hload]; simp [lseg_is_phdr]; intro hc; exact absurd hc (by decide)
+      have hocc' := occ_of_hdrOf hhs
+      simp only [hdrOf, Prod.mk.injEq] at hhs
+      obtain ⟨e1, e2, -, -, e5, -, -⟩ := hhs
+      have := f4 hfs hph k s' hs' (hocc'.1 hso) (by rw [e1]; exact h1) (by unfold SecBuf.endN; rw [e1, e2]; exact h2)
+      rw [e1, e5] at this
+      bv_omega
+    · have hg' := hg
+      rw [hsegs] at hg'
+      obtain ⟨f, sf', hhead, hsf', hoff⟩ := final_nested_start (preSave o) hdr res hl hnw hn' h0' hnd selN hnest g hg' hsg
+      obtain ⟨sf, hsf, hhsf⟩ : ∃ sf, r.obj.secs[f.toNat]? = some sf ∧ hdrOf sf = hdrOf sf' := by
+        have h1' : (r.obj.secs.map hdrOf)[f.toNat]? = some (hdrOf sf') := by
+          rw [he, List.getElem?_map, hsf']; rfl
+        rw [List.getElem?_map] at h1'
+        cases hq : r.obj.secs[f.toNat]? with
+        | none => rw [hq] at h1'; exact nomatch h1'
+        | some t0 => rw [hq] at h1'; exact ⟨t0, rfl, by simpa using h1'⟩
+      simp only [hdrOf, Prod.mk.injEq] at hhsf
+      obtain ⟨hfo, hva⟩ := hfirst f sf hhead hsf
+      have eoff : g.offset = sf.offset := by rw [hoff, hhsf.1]
+      by_cases hkf : k = f.toNat
+      · subst hkf
+        rw [hsf] at hk; simp only [Option.some.injEq] at hk; subst hk
+        rw [eoff, hva]; bv_omega
+      · have := hdisj k f.toNat s sf hkf hk hsf hso hfo
+        have hsz : 0 < sf.size.toNat := by
+          have := hfo.2.2
+          rcases Nat.eq_zero_or_pos sf.size.toNat with h' | h'
+          · exact absurd (BitVec.eq_of_toNat_eq (by rw [h']; rfl)) this
+          · exact h'
+        unfold SecBuf.endN at this
+        rw [eoff] at h1 h2
+        omega
+
 /-! ### the statement first written down for nested segments, and why it needed one more hypothesis -/
 
 /-- The statement as it was first written (kept visible).  It is **false** as it stands
